@@ -218,6 +218,12 @@ class Body:
         l = op_local(discr)
         if l is None:
             return discr
+        # `_d = discriminant(<place rooted at a local holding a constant enum value>)`
+        for s in self.blocks[bb]["s"]:
+            if s[0] == "=" and s[1] == [l] and s[2][0] == "discr":
+                v = self._const_of_place(s[2][1])
+                if isinstance(v, dict) and "vidx" in v:
+                    return ["k", "isize", v["vidx"]]
         found = None
         for s in self.blocks[bb]["s"]:
             if s[0] == "=" and s[1][0] == l:
@@ -226,6 +232,45 @@ class Body:
                 else:
                     found = None
         return found if found is not None else discr
+
+    def _const_of_place(self, pl, depth=0):
+        v = self._const_of_local(pl[0], depth)
+        for e in pl[1:]:
+            if v is None:
+                return None
+            if e == "*":
+                continue
+            if isinstance(e, list) and e[0] == "as":
+                if not (isinstance(v, dict) and v.get("variant") == e[1]):
+                    return None
+            elif isinstance(e, list) and e[0] == ".":
+                if not (isinstance(v, dict) and e[2] in v.get("fields", {})):
+                    return None
+                v = v["fields"][e[2]]
+            else:
+                return None
+        return v
+
+    def _const_of_local(self, l, depth=0):
+        """constant value of a local that is assigned exactly once, from a constant (possibly a
+        projection of another such local)"""
+        n = 0
+        val = None
+        for b in self.blocks:
+            for s in b["s"]:
+                if s[0] == "=" and s[1][0] == l and len(s[1]) == 1:
+                    n += 1
+                    if s[2][0] == "use" and s[2][1][0] == "k":
+                        val = s[2][1][2]
+                    elif s[2][0] == "use" and s[2][1][0] in ("cp", "mv") and depth < 4 and s[2][1][1][0] != l:
+                        val = self._const_of_place(s[2][1][1], depth + 1)
+                    else:
+                        val = None
+            t = b["t"]
+            if t[0] == "call" and t[3][0] == l:
+                n += 1
+                val = None
+        return val if n == 1 else None
 
     @property
     def succ(self):
@@ -381,7 +426,10 @@ class Body:
         if self._defs is None:
             d = {}
             pd = {}
+            live = self.live
             for b in range(self.n):
+                if b not in live:
+                    continue  # definitions in pruned (constant-dead) blocks do not flow anywhere
                 for i, s in enumerate(self.blocks[b]["s"]):
                     if s[0] == "=":
                         p = s[1]
